@@ -133,6 +133,40 @@ for base, where in [('{\n  a = 1;\n  n = {\n    b = 2;\n  };\n}\n', 'top'), ('{\
                 if str_at(t, keep)[0] is None: bad('another key disappeared after assigning a string', doc=base, value=sv, where=where, text=t)
             except Exception as e:
                 bad('assigning a string crashed: %s %s' % (type(e).__name__, e), doc=base, value=sv, where=where)
+# ---- a value taken from the document itself (ninth round): assigning a set that the mapping returned — attrpath-derived and merged, explicit, or
+# from the let scope — to another key, in the same or another document; the text must show under the new key exactly what the mapping reports there
+def names_of(m):
+    vs = getattr(m, 'values', None)
+    items = vs if isinstance(vs, list) else (list(m) if not isinstance(m, (str, bytes)) and hasattr(m, '__iter__') else [])
+    return [b.name for b in items if hasattr(b, 'name') and hasattr(b, 'value')]
+def is_map(v): return type(v).__name__ in ('AttributeSet', 'Scope') and bool(names_of(v))
+def leaves_of(m, prefix=()):
+    """what the mapping reports below m: every name through item access, sets followed"""
+    out = {}
+    for k in names_of(m):
+        v = m[k]
+        if is_map(v): out.update(leaves_of(v, prefix + (dec(k),)))
+        else: out[prefix + (dec(k),)] = ' '.join((v.rebuild() if hasattr(v, 'rebuild') else render(v)).split())
+    return out
+ALIAS_DOCS = [('{\n  services.web.tls.enable = true;\n  services.web.port = 80;\n  services.db = "pg";\n  backup = 1;\n}\n', 'services', 'top'),
+              ('{\n  a.b.c.d = 1;\n  z = 0;\n}\n', 'a', 'top'), ('{\n  a.b = 1;\n  a.c.d = 2;\n  a.c.e = 3;\n  z = 0;\n}\n', 'a', 'top'),
+              ('{\n  cfg = {\n    x = 1;\n    y.z = 2;\n    y.w = 3;\n  };\n  z = 0;\n}\n', 'cfg', 'top'),
+              ('let\n  cfg.net.a = 1;\n  cfg.net.b = 2;\nin\n{\n  x = 0;\n}\n', 'cfg', 'scope')]
+for text, key, where in ALIAS_DOCS:
+    for target in ('same', 'other', 'nested'):
+        count('alias-assign/' + where + '/' + target)
+        try:
+            d = parse(text); val = d[key] if where == 'top' else d.expr.scope[key]
+            if not is_map(val): bad('harness: the value taken from the document is not a mapping', doc=text, key=key); continue
+            want = leaves_of(val)
+            if target == 'same': d['k9'] = val; t = d.rebuild(); path = ('k9',)
+            elif target == 'other': o = parse('{\n  top = 1;\n}\n'); o['k9'] = val; t = o.rebuild(); path = ('k9',)
+            else: o = parse('{\n  top = {\n    u = 1;\n  };\n}\n'); o['top']['k9'] = val; t = o.rebuild(); path = ('top', 'k9')
+            tr = read_tree(t)
+            if tr is None: bad('text after assigning a set taken from a document does not parse', doc=text, key=key, target=target, text=t); continue
+            got = {k_[len(path):]: v_ for k_, v_ in tr[0].items() if k_[:len(path)] == path}
+            if got != want: bad('the rebuilt text does not show under the new key what the mapping reports for the assigned set', doc=text, key=key, target=target, text=t, mapping=sorted(map(str, want.items())), shown=sorted(map(str, got.items())))
+        except Exception as e: bad('assigning a set taken from a document crashed: %s %s' % (type(e).__name__, e), doc=text, key=key, target=target)
 for it in range(N):
     text, shape = gen(); src = parse(text); ops = []
     for step in range(R.randint(1, 6)):
